@@ -410,5 +410,10 @@ def from_grammar_order(repo, res, rule="MPT"):
         a = [A.resolve(x, env) for x in c["args"]]
         nest1 = call_nest(a[1], set(passes)) if len(a) > 1 else []
         res.check(nest1[:1] == ["specialize_nonterminals"], rule, f"{rule}:{fq}:check_subword_spaces:arg", f"checked expression lineage {nest1}", f"{fn.file}:{c['l']}")
+        # ... and it runs on EXPANDED definitions: two literals are adjacent inside a word also when each is the whole body of a referenced
+        # definition, which the check sees as literals only after the definitions were inlined into each other (the expansion loop)
+        loops = [lp for lp in A.walk(fn.body) if lp["k"] == "ForLoop" and any(True for _ in P.find_calls(lp["body"], names={"resolve_nonterminals"}))]
+        after = bool(loops) and all((lp["el"], lp["ec"]) <= (c["l"], c["c"]) for lp in loops)
+        res.check(after, rule, f"{rule}:{fq}:check_subword_spaces:after-expansion", "check_subword_spaces runs after the loop that expands definitions into each other" if after else "check_subword_spaces runs BEFORE the definitions are expanded into each other: literals that come together only through references are not seen as adjacent", f"{fn.file}:{c['l']}")
     # definitions are collected before any use: the duplicate check + map fill precede the first pass
     return {"assigns": assigns, "order": order}
